@@ -35,7 +35,8 @@ type simDevice struct {
 	maxElection uint64
 	// scripted answers: the next len(script) Sets are answered with these codes (codes.OK = normal processing)
 	script []codes.Code
-	// refuse: a Set that carries one of these "path=value" updates is always answered with the given code
+	// refuse: a Set that carries one of these "path=value" updates, or the delete of one of these paths
+	// ("delete <path>"), is always answered with the given code
 	refuse map[string]codes.Code
 	// request log of the current step
 	log  []devReq
@@ -125,6 +126,11 @@ func (d *simDevice) Set(ctx context.Context, r *gnmi.SetRequest) (*gnmi.SetRespo
 	for _, u := range req.Updates {
 		if c, ok := d.refuse[u]; ok {
 			return finish(c, fmt.Sprintf("device %s refuses %s", d.id, u))
+		}
+	}
+	for _, t := range req.Deletes {
+		if c, ok := d.refuse["delete "+t]; ok {
+			return finish(c, fmt.Sprintf("device %s refuses the delete of %s", d.id, t))
 		}
 	}
 	if len(d.script) > 0 {
